@@ -70,12 +70,19 @@ fn scenario(rec: &mut Rec, ctx: &Ctx, idx: u64, rng: &mut ChaCha20Rng) {
   let mut messages: Vec<Message> = Vec::new();
   let mut client_id: u64 = 0;
   let mut sizes = Vec::new();
+  let mut last_m: Vec<u8> = Vec::new();
   for g in 0..groups {
-    let m = {
+    let m = if g >= 2 && g % 5 == 4 && !last_m.is_empty() {
+      // a sibling of the previous measurement: the same bytes plus trailing zeros
+      let mut m = last_m.clone();
+      m.extend(vec![0u8; rng.gen_range(1..4)]);
+      m
+    } else {
       let mut m = rand_bytes_in(rng, 1..40);
-      m.extend_from_slice(&(g as u32).to_le_bytes()); // distinct measurements
+      m.extend_from_slice(&(g as u32 + 1).to_be_bytes()); // distinct measurements
       m
     };
+    last_m = m.clone();
     // sizes 1..2t around the threshold, with t-1, t, t+1 frequent
     let size = match rng.gen_range(0..6) {
       0 => t.saturating_sub(1).max(1),
